@@ -6,6 +6,8 @@
  .5 K2  readyok / quit / EOF
  .6 K8  options are applied only by the idle engine thread
  .7 K13 the per-go limits are recomputed completely on every path (no value of a previous go survives)
+ .8 K4  the protocol thread never blocks on the engine thread while a search may be running
+        (pending options are only applied when the search ends, and the search may be waiting for `stop`)
 """
 from ..core import cname, ap, walk, show, strip_not, eff_cond
 from ..flow import Flow
@@ -43,6 +45,7 @@ def run(fb, rep, tier):
     c5_readyok_quit(fb, rep, cg)
     c6_options(fb, rep, cg)
     c7_go_frame(fb, rep)
+    c8_no_blocking_during_search(fb, rep, cg)
     rep.extra['call_graph'] = {'functions': len(cg.edges), 'thread_roots': [fb.kname(k) + ' <- ' + fb.kname(c) for k, c, _ in cg.thread_roots if R.in_engine(fb.funcs.get(c)) ] if True else []}
     rep.extra['constant_stub_branches_folded'] = sorted({'%s -> %s' % (n, v) for _, _, n, v in fb.folded})
 
@@ -491,3 +494,24 @@ def c7_go_frame(fb, rep):
                    fld in may and eff.must_write(ct, fld), f.where, '', f.sname)
         R.dominated_by(rep, f, clause, '%s: computeTimeLimit() precedes startThread()' % name,
                        R.is_named_call('EngineControl::startThread'), R.is_named_call('EngineControl::computeTimeLimit'))
+
+
+# ----------------------------------------------------------------------------- .8
+
+def c8_no_blocking_during_search(fb, rep, cg):
+    """waitOptionsSet() blocks until the engine thread has applied pending options, which it only does when no
+    search is running.  If the protocol thread calls it while a search runs, `stop` is never read: deadlock.
+    So every call must come after waitStop() on every path, or be guarded by exactly `!sc` (no search object)."""
+    clause = 'C05.8'
+    sites = [(f, b, i, e) for (f, b, i, e) in cg.call_sites('EngineMainThread::waitOptionsSet') if R.in_engine(f)]
+    rep.floor(clause, 'waitOptionsSet call sites', len(sites), 2)
+    for f, b, i, e in sites:
+        after_stop = f.path_avoiding((f.entry, -1), lambda x, _e=e: x is _e, R.is_named_call('EngineMainThread::waitStop')) is None
+        from .. import regions as G
+        g = G.guards_of(f, set(f.blocks), b)
+        only_nosearch = g == ['!bool(sc)'] or g == ['!sc']
+        rep.ob(clause, 'K4 guard', '%s: waits for pending options only after the search was stopped, or when no search object exists' % f.sname,
+               after_stop or only_nosearch, R.site(f, e), 'preceded by waitStop on every path: %s; guards: %s' % (after_stop, g), f.sname)
+    # the same for waitStop: only stopThread (which first installs the zero time limit, C06.2) may block on it
+    R.who_may_call(rep, fb, cg, clause, 'EngineMainThread::waitStop', {'EngineControl::stopThread'}, scope=R.in_engine)
+    R.who_may_call(rep, fb, cg, clause, 'EngineMainThread::waitOptionsSet', {'EngineControl::stopThread', 'EngineControl::waitReady'}, scope=R.in_engine)
